@@ -103,13 +103,13 @@ def _run(ctx: Ctx, mod, replay):
 
 	# ---- audit -------------------------------------------------------------------------------
 	forb = core.grep_forbidden()
-	pairs = [mod.PROPS] + list(getattr(mod, 'TIE', []))
+	pairs = [mod.PROPS] + list(getattr(mod, 'PROPS_EXTRA', [])) + list(getattr(mod, 'TIE', []))
 	if ctx.tie_broken:
 		# the Props module may import a broken Tie module; audit what still exists
 		pairs = [p for p in pairs if (LEAN / '.lake/build/lib/lean' / (p[0].replace('.', '/') + '.olean')).exists()
 		         and not (core.import_closure([p[0]], imports) & set(failed))]
 	audit = core.audit_axioms(pairs)
-	all_pairs = [mod.PROPS] + list(getattr(mod, 'TIE', []))
+	all_pairs = [mod.PROPS] + list(getattr(mod, 'PROPS_EXTRA', [])) + list(getattr(mod, 'TIE', []))
 	obligations = sum(len(core.theorem_names(LEAN / (m.replace('.', '/') + '.lean'), ns)) for m, ns in all_pairs
 	                  if (LEAN / (m.replace('.', '/') + '.lean')).exists())
 	discharged = len([n for n, ax in audit['theorems'].items() if set(ax) <= core.ALLOWED_AXIOMS])
@@ -179,17 +179,24 @@ def _run(ctx: Ctx, mod, replay):
 		replay_paths.append(str(p))
 		print(f'VIOLATION property={pid} replay={p}')
 		status = EXIT_VIOLATION
-	elif ctx.tie_broken:
+	elif ctx.tie_broken or ctx.diffs:
+		corr = sorted({b['reply'][5:].split(':')[0] for d in ctx.diffs for b in d['bad']})
 		payload = {
 			'property': pid, 'kind': 'tie-broken',
-			'no_longer_checks': ctx.tie_broken,
+			'no_longer_checks': list(ctx.tie_broken) + ['correspondence ' + c_ for c_ in corr],
 			'detail': ctx.notes,
+			# the first inputs on which model / generated definitions and implementation differ; the statement's predicate accepted the
+			# implementation's output on every one of them (re-evaluated by --replay)
+			'cases': [d['case'] for d in ctx.diffs[:3]],
+			'first_differences': [b['reply'][:600] for d in ctx.diffs[:3] for b in d['bad'][:2]],
+			'diverging_cases': getattr(ctx, 'ndiffs', 0),
 			'searched': {'evaluations': ctx.evaluations, 'driver_requests': ctx.requests,
 			             'tier': ctx.tier, 'seed': ctx.seed},
 			'explanation': 'the definitions generated from the current sources (harness/pyx2lean.py for _cython/*.pyx, harness/py2lean.py for '
 			               'the translated Python functions) no longer satisfy the tie theorem(s) named above, or a source construct is '
-			               'outside the translated subset (see detail); no concrete failing input was found by the search over the '
-			               'generated definitions, the model and the implementation',
+			               'outside the translated subset (see detail), or the model / the generated definitions and the implementation differ on the '
+			               'recorded cases while the statement\'s own predicate accepts the implementation\'s output there (a broken correspondence); '
+			               'no concrete failing input was found by the search over the generated definitions, the model and the implementation',
 		}
 		p = core.write_replay(pid, payload)
 		replay_paths.append(str(p))
@@ -226,7 +233,7 @@ def _run(ctx: Ctx, mod, replay):
 		},
 		'assumptions': list(getattr(mod, 'ASSUMPTIONS', [])),
 		'wall_s': round(ctx.elapsed(), 2),
-		'violations': len(violations) + (1 if (ctx.tie_broken and not violations) else 0),
+		'violations': len(violations) + (1 if ((ctx.tie_broken or ctx.diffs) and not violations) else 0),
 	}
 	if not replay:
 		core.write_evidence(pid, ev)
